@@ -168,7 +168,7 @@ type Registry struct {
 	ifaceAs    map[string]types.Type // interface type string -> pointer type it is modelled as
 	typeAs     map[string]types.Type // concrete (library) struct type -> ghost struct it is modelled as
 	unboxFns   map[string]bool
-	uninterp   []string              // declare-fun lines
+	uninterp   []string // declare-fun lines
 	axioms     []string
 	strConsts  map[string]string // go string value -> smt constant
 	strOrder   []string
